@@ -104,6 +104,11 @@ Definition check_case (c : case) : bool :=
   | Err _, _ => true
   end
   && res_same (m_exp m) (c_exp c)
+  (* the exported form of the model has the JSON kind prescribed for the type and is strict JSON *)
+  && match m_exp m with
+     | Ok j => kind_ok (if c_side c then match c_dc c with Some o => o | None => c_d c end else c_d c) j && strict_json j
+     | Err _ => true
+     end
   && match c_exp c, c_j2 c with Ok j, Some j2 => pv_same j j2 | Ok _, None => false | Err _, _ => true end
   && opt_same res_same (m_wire m) (c_wire c)
   && opt_same res_same (m_cimp m) (c_cimp c)
